@@ -481,7 +481,7 @@ func runProperty(prop string, ps *propSpec, opt options) int {
 			for _, p := range vps {
 				v := vfiles[p]
 				h2 := &symex.HarnessRun{Name: hs.Name, Entry: entry, Params: params, Unwind: h.Unwind, MaxSteps: h.MaxSteps, MaxDecisions: h.MaxDecisions,
-					QueryTimeout: h.QueryTimeout, IncrTimeout: h.IncrTimeout, Preemptions: h.Preemptions, Fixed: v.Inputs, MaxPaths: 64}
+					QueryTimeout: h.QueryTimeout, IncrTimeout: h.IncrTimeout, Preemptions: h.Preemptions, Fixed: v.Inputs, FixedSched: append([]int{}, v.Schedule...), RaceCheck: h.RaceCheck, MaxPaths: 64}
 				prog.Explore(h2, 1, opt.solver)
 				confirmed := false
 				for _, v2 := range h2.Violations {
@@ -512,7 +512,7 @@ func runProperty(prop string, ps *propSpec, opt options) int {
 					}
 				}
 				violationLines = append(violationLines, fmt.Sprintf("VIOLATION property=%s replay=%s", prop, p))
-				fmt.Printf("  violation (engine-side replay; the wall clock cannot be forced natively): %s\n", desc)
+				fmt.Printf("  violation (engine-side replay; no native forcing of this run): %s\n", desc)
 				ev.Violations++
 			}
 			for i, w := range h.Witnesses {
